@@ -201,6 +201,40 @@ def native_corpus():
     return cnt, bad
 
 
+def native_random(n4: int, n5: int):
+    """Pseudo-random directed mixed graphs on 4 and 5 nodes (about half of them acyclic), every pair and conditioning
+    set, natively against the concrete reference.  Not solver-decided: it keeps the check able to *show* a violation on
+    a tree whose source the interpreter cannot encode (then run with a larger sample), and validates the translation on
+    graphs larger than the exhaustive 3-node corpus otherwise."""
+    import random
+
+    rng = random.Random(1000 + seed())
+    bad, cnt = [], 0
+    for n, count in ((4, n4), (5, n5)):
+        U = universe(n)
+        for k in range(count):
+            order = U[:]
+            rng.shuffle(order)
+            acyclic_wanted = k % 2 == 0
+            pd, pb = rng.choice((0.25, 0.4)), rng.choice((0.15, 0.3))
+            di = []
+            for i, u in enumerate(order):
+                for j, v in enumerate(order):
+                    if u != v and (i < j or not acyclic_wanted) and rng.random() < (pd if i < j else pd / 2):
+                        di.append((u, v))
+            bi = [p for p in itt.combinations(U, 2) if rng.random() < pb]
+            acyclic = _acyclic3(U, di)
+            for a, b in itt.combinations(U, 2):
+                rest = [w for w in U if w not in (a, b)]
+                for r_ in range(len(rest) + 1):
+                    for C in itt.combinations(rest, r_):
+                        cnt += 1
+                        r = native_case(U, di, bi, a, b, list(C), acyclic)
+                        if r["bad"] and not r["d11"] and len(bad) < 5:
+                            bad.append(r)
+    return cnt, bad
+
+
 def _acyclic3(nodes, di):
     left = set(nodes)
     while left:
@@ -267,7 +301,11 @@ def run() -> int:
         if len(rep.samples) < 8:
             rep.add_sample({"query": key, "verdict": r["verdict"], "encode_s": round(r["encode_s"], 2), "solve_s": round(r["solve_s"], 2)})
     cnt, bad = native_corpus()
-    for b in bad:
+    unsupported = any("encoding cannot be built" in h for h in rep.harness_errors)
+    cnt2, bad2 = native_random(*((400, 300) if unsupported else (60, 40)))
+    cnt += cnt2
+    rep.extra["native_random_graphs"] = {"queries": cnt2, "note": "pseudo-random 4/5-node graphs, not solver-decided" + ("; enlarged because the encoding could not be built on this tree" if unsupported else "")}
+    for b in bad + bad2:
         what = f"are_sigma_separated({b['a']}, {b['b']} | {b['C']}) on nodes={b['nodes']} di={b['di']} bi={b['bi']}: {b['observed']} (native validation corpus)"
         rep.add_violation(Violation(PROP, [f"native {b['a']} {b['b']} {b['C']}"], what, {"property": PROP, **b}))
     rep.extra.update({"states": max(states, 1), "transitions": max(rep.obligations, 1), "traces_validated_against_impl": cnt})
